@@ -36,7 +36,7 @@ func (sc SiteCtx) Resolve(v ssa.Value) ssa.Value {
 		}
 		callee := staticCallee(sc.Calls[k].Common())
 		if callee == nil || p.Parent() != callee {
-			return v
+			continue // v belongs to a function further out in the chain
 		}
 		idx := paramIndex(p)
 		args := sc.Calls[k].Common().Args
